@@ -908,8 +908,8 @@ func c05Race() []RaceBody {
 								errs <- fmt.Errorf("put %s: %v", key, res.Error)
 								return
 							}
-						case <-time.After(20 * time.Second):
-							errs <- fmt.Errorf("put %s: no response within 20 s\n%s", key, allStacks())
+						case <-time.After(raceWait):
+							errs <- fmt.Errorf("put %s: no response within 100 s\n%s", key, allStacks())
 							return
 						}
 					}
